@@ -50,7 +50,7 @@ def hexFast (b : Bytes) : String :=
     return out
   (String.fromUTF8? ba).getD ""
 
-def nameArg (s : String) : Option WName := do
+private def nameArg (s : String) : Option WName := do
   let b ← unhexFast s
   let (n, rest) ← WName.parse b.toList
   if rest.isEmpty then some n else none
